@@ -5,8 +5,9 @@ from vlib import core
 LEVEL = "other"
 EXPLANATION = (
     "partial proof + differential exploration.  Proved in Coq (unbounded): soundness of the Z_2 Gaussian elimination the "
-    "specification runs on, the counting identity 'bars alive at i = r(i,i)', the index->value translation / zero-length / "
-    "ignored-dimension clauses of the filtered front-ends as functions of the index barcode.  NOT proved: (1) that the "
+    "specification runs on, the semantic reading of its relation sweep, the counting identity 'bars alive at i = r(i,i)', the "
+    "index->value translation / zero-length / ignored-dimension clauses of the filtered front-ends as functions of the index "
+    "barcode (incl.: skipping the cells above ignore_cycles_above_dim leaves the bars of the reported dimensions unchanged).  NOT proved: (1) that the "
     "numbers r_k(b,e) = dim dom - dim ker of the composed inclusion relation H_k(K_b) ~> H_k(K_e) determine the interval "
     "decomposition (Gabriel / Carlsson-de Silva; equals the generalised rank of Kim-Memoli, Dey-Kim-Memoli) - literature; "
     "(2) anything about the reflection-diamond / transposition algorithm of zigzag_persistence.h, which is not modelled: the "
@@ -702,6 +703,22 @@ def check(ctx, replay=None):
             case = cur
         for _ in lst:
             res.violation(kind, what, case, expected=exp, observed=obs)
+
+    # the specification against two independent Python implementations (right-filtration algorithm; lim->colim ranks from the definition)
+    if not replay:
+        nx = 5000 if ctx.tier == "thorough" else 600
+        import sys
+        rc, out = core.sh([sys.executable, os.path.join(core.ROOT, "tools", "c07_xval.py"), "--gen", str(nx), "--seed", str(ctx.seed + 100),
+                           "--maxB", "30", "--oracle", orc], timeout=3000)
+        tail = [l for l in out.splitlines() if l.startswith("cases=")]
+        res.count("specification cross-validated against tools/c07_xval.py (independent Python, methods A, B, C)", nx)
+        res.notes.append("cross-validation of the extracted specification: " + (tail[-1] if tail else "no summary"))
+        if rc != 0 or not tail or "disagreements=0" not in tail[-1]:
+            dis = [l for l in out.splitlines() if l.startswith("DISAGREE")]
+            res.violation("spec-selfcheck:python-cross-validation", "the extracted specification disagrees with the independent Python implementations "
+                          "(machinery error): " + (dis[0][:300] if dis else out[-300:]), {"ops": [], "mode": "xval", "detail": dis[:3]}, expected="disagreements=0",
+                          observed=(tail[-1] if tail else "rc=%d" % rc))
+        res.evaluations += nx
 
     res.rule = ("one case = one zigzag sequence (list of insert/remove/identity arrows with keys, dimensions, values); distinct = distinct operation "
                 "lists; each is run through Zigzag_persistence, Filtered_zigzag_persistence, Filtered_zigzag_persistence_with_storage (dimmax -1 and a "
